@@ -447,6 +447,14 @@ impl Octree {
 /// Verification hook: the leaves of the finished octree.
 #[cfg(fidget_verif)]
 impl Octree {
+    /// [`walk_dual`](Self::walk_dual), also returning for each mesh vertex
+    /// its index in the octree's vertex array
+    pub fn verif_walk_dual(&self) -> (Mesh, Vec<usize>) {
+        let mut mesh = MeshBuilder::default();
+        mesh.cell(self, CellIndex::default());
+        mesh.verif_take()
+    }
+
     /// Returns `(depth, lower corner, upper corner, corner mask, first vertex
     /// index, vertex positions)` for every leaf cell that holds vertices
     #[allow(clippy::type_complexity)]
